@@ -223,7 +223,7 @@ type c09State struct {
 	// which order a later Descriptors() call lists the same objects is not stated (the interface documents "sorted by weight").
 	handles   []scte35.SegmentationDescriptor
 	handlesOK bool
-	sig      scte35.SCTE35
+	sig       scte35.SCTE35
 	// arena is the caller-side buffer the byte slices given to setters are cut from, one directly
 	// behind the other: each slice's spare capacity is the memory of the slices handed over later
 	arena, arenaKeep []byte
